@@ -12,7 +12,7 @@ LINKERS = {
     "liwe::graph::Graph::builder": ("liwe::graph::builder::", "liwe::graph::sections_builder::", "liwe::graph::Graph::"),
     "liwe::graph::builder::GraphBuilder::set_id": ("liwe::graph::builder::", "liwe::graph::sections_builder::"),
     "liwe::graph::builder::GraphBuilder::set_insert": ("liwe::graph::builder::", "liwe::graph::sections_builder::"),
-    "liwe::graph::builder::GraphBuilder::link_node_id": (),
+    "liwe::graph::builder::GraphBuilder::link_node_id": ("liwe::graph::builder::",),
     "liwe::graph::arena::Arena::set_node": ("liwe::graph::arena::", "liwe::graph::Graph::build_key", "liwe::graph::Graph::build_key_and", "liwe::graph::Graph::add_graph_node"),
     "liwe::graph::arena::Arena::node_mut": ("liwe::graph::Graph::node_mut",),
     "liwe::graph::Graph::node_mut": ("liwe::graph::builder::",),
@@ -93,12 +93,19 @@ def rule_r2(facts, rep, rid="C20-R2"):
     for name in ("GraphBuilder::add_node_and", "GraphBuilder::add_node_and2"):
         f = facts.fn(name)
         rep.saw_fn(f)
+
+        def find_iff(fn_):
+            for x in fb.walk(fn_.body):
+                if x.get("k") == "if" and self_field(x["c"]) == "insert":
+                    return x
+            return None
+        iff = find_iff(f)
+        if iff is None:
+            # the linking may be delegated to another method of the builder (`self.link_node_id(node.id())`): look at the fn with those calls expanded
+            from vlib import inline as _inl
+            f = _inl.expanded(facts, f)
+            iff = find_iff(f)
         c = ctx(f)
-        iff = None
-        for x in fb.walk(f.body):
-            if x.get("k") == "if" and self_field(x["c"]) == "insert":
-                iff = x
-                break
         key = f.def_ + "|links-child-or-next"
         if iff is None:
             rep.violation(rid, key, "no `if self.insert` branch: the new node is not linked as child or next of the cursor", f.loc)
@@ -404,6 +411,11 @@ def rule_r6(facts, rep, rid="C20-R6"):
     for link, acc in (("next", "next_id"), ("child", "child_id")):
         f = facts.fn("GraphNodePointer as liwe::model::node::NodeIter>::" + link)
         m = ctx(f).mentions(f.body)
+        if not q.has_call(m, "GraphNode::" + acc):
+            # through the pointer's own accessor (`self.next_id()`), which is checked just above
+            from vlib import inline as _inl
+            fe = _inl.expanded(facts, f)
+            m = ctx(fe).mentions(fe.body)
         wrong = [a for a in ("next_id", "child_id", "prev_id") if a != acc and q.has_call(m, "GraphNode::" + a)]
         if q.has_call(m, "GraphNode::" + acc) and not wrong:
             rep.ok(rid, f.def_ + "|delegates-to-same-link", "", f.loc)
